@@ -409,17 +409,48 @@ def sharded_http_urls(repo, col):
 def copy_info_handling(repo, col):
     rule = "E-ORDER.convert.info"
     fn = repo.func("scripts.convert_chunks", "convert_chunks")
+    defs = local_defs(fn.node)
     t = norm(fn.node).replace("\n", " ")
     while "  " in t:
         t = t.replace("  ", " ")
-    ok = "if copy_info: chunk_writer = precomputed_io.get_IO_for_new_dataset(" \
-        "source_info, dest_accessor, encoder_options=options) else: " \
-        "chunk_writer = precomputed_io.get_IO_for_existing_dataset(" \
-        "dest_accessor, encoder_options=options)" in t
-    col.add(rule, fn, "--copy-info writes the source info, else the "
-            "destination's own info is used", ok, "" if ok else
-            "writer construction / --copy-info handling changed",
-            undecided=not ok)
+    # the destination's layout (sharded or plain) is decided from its info:
+    # with --copy-info the info only exists after it has been stored, so the
+    # accessor that writes the chunks must be obtained after that store
+    branch = None
+    for st in stmts_of(fn.node):
+        if isinstance(st, ast.If) and norm(st.test) == "copy_info":
+            branch = st
+    if branch is None:
+        col.add(rule, fn, "--copy-info branch", True, "no `if copy_info:` "
+                "branch", undecided=True)
+        return
+    i_store = i_acc = None
+    acc_name = None
+    for i, st in enumerate(branch.body):
+        if any((call_name(c) or "").endswith("get_IO_for_new_dataset")
+               for c in calls_in(st)):
+            i_store = i
+            direct = isinstance(st, ast.Assign)
+        if isinstance(st, ast.Assign) and any(
+                (call_name(c) or "").endswith("get_accessor_for_url")
+                for c in calls_in(st)) and isinstance(st.targets[0], ast.Name):
+            i_acc = i
+            acc_name = st.targets[0].id
+    col.add(rule, fn, "--copy-info stores the source info", i_store is not None,
+            "" if i_store is not None else "--copy-info no longer writes the "
+            "source info to the destination")
+    writers = [d for d in defs.get("chunk_writer", []) if d.value is not None]
+    final = writers[-1].value if writers else None
+    uses = names_in(final) if final is not None else set()
+    ok = i_store is not None and i_acc is not None and i_acc > i_store and \
+        acc_name in uses and final is not None and \
+        "get_IO_for_existing_dataset" in norm(final)
+    col.add(rule, fn, "accessor for the chunks is obtained after the info is "
+            "stored", ok, "" if ok else
+            "with --copy-info the chunks are written through an accessor that "
+            "was created before the destination info existed: a sharded "
+            "source info is copied next to chunks written in the plain file "
+            "layout (or the reverse) and the destination cannot be read back")
     ok = "dest_info = chunk_writer.info" in t and \
         "convert_chunks_for_scale(chunk_reader, dest_info, chunk_writer, " \
         "scale_index, chunk_transformer)" in t
